@@ -9,30 +9,52 @@ use serde::{Deserialize, Serialize};
 pub struct MomentData {
     scale: f32,
     offset: f32,
+    data_word_size: u8,
     values: Vec<u8>,
 }
 
 impl MomentData {
-    /// Create new moment data from fixed-point encoding.
+    /// Create new moment data from fixed-point encoding with one byte per gate.
     pub fn from_fixed_point(scale: f32, offset: f32, values: Vec<u8>) -> Self {
+        Self::from_fixed_point_with_word_size(8, scale, offset, values)
+    }
+
+    /// Create new moment data from fixed-point encoding where each gate is encoded using the given
+    /// number of bits (8 or 16). 16-bit gate values are stored big-endian.
+    pub fn from_fixed_point_with_word_size(
+        data_word_size: u8,
+        scale: f32,
+        offset: f32,
+        values: Vec<u8>,
+    ) -> Self {
         Self {
             scale,
             offset,
+            data_word_size,
             values,
         }
     }
 
     /// Values from this data moment corresponding to gates in the radial.
     pub fn values(&self) -> Vec<MomentValue> {
-        let copied_values = self.values.iter().copied();
+        let raw_values: Vec<u16> = if self.data_word_size == 16 {
+            self.values
+                .chunks_exact(2)
+                .map(|word| u16::from_be_bytes([word[0], word[1]]))
+                .collect()
+        } else {
+            self.values.iter().map(|value| *value as u16).collect()
+        };
 
         if self.scale == 0.0 {
-            return copied_values
+            return raw_values
+                .into_iter()
                 .map(|raw_value| MomentValue::Value(raw_value as f32))
                 .collect();
         }
 
-        copied_values
+        raw_values
+            .into_iter()
             .map(|raw_value| match raw_value {
                 0 => MomentValue::BelowThreshold,
                 1 => MomentValue::RangeFolded,
